@@ -207,6 +207,8 @@ def parse_output(text, job) -> KaniResult:
                 r.verdict = "violation"
                 r.reason = "code after an expected panic is reachable: " + msg
                 return r
+        elif status == "UNREACHABLE" and job.expect_fail:
+            continue    # expected-panic harness: everything behind the panic is unreachable by design
         elif status != "SATISFIED":
             r.verdict = "inconclusive"
             r.reason = "vacuity witness not satisfied: %s (%s)" % (msg, status)
